@@ -3,6 +3,7 @@ package world
 import (
 	"crypto/rsa"
 	"fmt"
+	"regexp"
 	"strings"
 
 	"github.com/beevik/etree"
@@ -37,7 +38,7 @@ var AttackOps = []string{
 	"shadow_attribute", "comment_inject", "ns_rebind", "relocate_signature", "evil_sibling", "nest_in_response",
 	"attacker_encrypt", "cdata_inject", "swap_signature_values",
 	"root_id_collision", "keyinfo_swap", "duplicate_signature", "doctype_entity", "attacker_signed_sibling", "whitespace_in_signed",
-	"result_field_injection",
+	"result_field_injection", "nsdecl_named_like_attribute",
 }
 
 func el(doc *etree.Document) *etree.Element { return doc.Root() }
@@ -840,6 +841,43 @@ func (ad *Adversary) Build(t *core.Tape, op string, hist []IssuedMsg) (*Attack, 
 		atk.XML = docString(d)
 		return atk, true
 
+	case "nsdecl_named_like_attribute":
+		// namespace declarations whose prefix is spelled like an attribute the decoder reads: exclusive
+		// canonicalisation ignores them (unused prefixes), a sloppy decoder takes them for the attribute
+		m := pick("adv.msg", plainAssertions)
+		if m == nil {
+			return nil, false
+		}
+		x := m.XML
+		n := 0
+		add := func(elem, decl string) {
+			re := regexp.MustCompile(`<([A-Za-z0-9]+:)?` + elem + `\b`)
+			if loc := re.FindStringIndex(x); loc != nil {
+				x = x[:loc[1]] + " " + decl + x[loc[1]:]
+				n++
+			}
+		}
+		which := t.Int(5, "adv.nsdecl.which")
+		if which == 0 || which == 4 {
+			add("SubjectConfirmationData", `xmlns:NotOnOrAfter="2099-01-01T00:00:00Z" xmlns:Recipient="https://evil.example/acs"`)
+		}
+		if which == 1 || which == 4 {
+			add("Conditions", `xmlns:NotOnOrAfter="2099-01-01T00:00:00Z" xmlns:NotBefore="1999-01-01T00:00:00Z"`)
+		}
+		if which == 2 || which == 4 {
+			add("Assertion", `xmlns:ID="_evil" xmlns:Version="2.0"`)
+		}
+		if which == 3 || which == 4 {
+			add("AuthnStatement", `xmlns:SessionIndex="evil-session"`)
+			add("NameID", `xmlns:Format="urn:evil"`)
+		}
+		if n == 0 {
+			return nil, false
+		}
+		atk.XML, atk.Detail = x, fmt.Sprintf("which=%d", which)
+		atk.Benign = true // whatever is accepted must still equal a signed unit
+		return atk, true
+
 	case "result_field_injection":
 		// attributes / children named after fields of the library's result structs that are
 		// meant to be set by the library only (trust indicators)
@@ -1044,7 +1082,12 @@ func DirectAssertionIDs(xml string) (map[string]bool, bool) {
 	for _, c := range d.Root().ChildElements() {
 		switch c.Tag {
 		case "Assertion":
-			ids[c.SelectAttrValue("ID", "")] = true
+			// the unqualified ID attribute (etree's SelectAttrValue would also match xmlns:ID or x:ID)
+			for _, a := range c.Attr {
+				if a.Space == "" && a.Key == "ID" {
+					ids[a.Value] = true
+				}
+			}
 		case "EncryptedAssertion":
 			enc = true
 		}
